@@ -512,7 +512,9 @@ def _slice_1d(dim_shape, lengths, index):
     else:
         rstart = start  # running start
 
-        istart = bisect.bisect_left(chunk_boundaries, start)
+        # (bisect_right: zero-size chunks repeat a boundary, and the chunk that
+        # holds ``start`` comes after all of them)
+        istart = bisect.bisect_right(chunk_boundaries, start)
         istop = bisect.bisect_right(chunk_boundaries, stop)
 
         # the bound is not exactly tight; make it tighter?
